@@ -2,7 +2,7 @@
 C07 — families whose comparison is a plain composition of the combinators of `Lex.lean`:
 semver-like, NuGet, CRAN, RubyGems.
 -/
-import Scalibr.Proofs.Semantic.Lex
+import Scalibr.Proofs.Semantic.GoShape
 namespace Scalibr.Semantic
 
 /-! ## identifier comparison: "numeric below non-numeric" and "numeric above non-numeric" -/
@@ -80,16 +80,16 @@ theorem cmpRuby_isCmp : IsCmp cmpRuby := cmpPad_isCmp _ rubyElem_isCmp
 /-! ## the families -/
 
 theorem semver_laws : FamLaws semverFam (fun _ => True) cmpSemver where
-  parse_nopanic := fun s => by simp [semverFam]
+  parse_nopanic := fun s => by simp
   parse_wf := fun _ _ _ => trivial
-  cmp_eq := fun _ _ _ _ => rfl
+  cmp_eq := fun v w _ _ => semverFam_cmp v w
   refl := fun v _ => cmpSemver_isCmp.refl v
   swap := fun v w _ _ => cmpSemver_isCmp.swap v w
 
 theorem nuget_laws : FamLaws nugetFam (fun _ => True) cmpNuGet where
-  parse_nopanic := fun s => by simp [nugetFam]
+  parse_nopanic := fun s => by simp
   parse_wf := fun _ _ _ => trivial
-  cmp_eq := fun _ _ _ _ => rfl
+  cmp_eq := fun v w _ _ => nugetFam_cmp v w
   refl := fun v _ => cmpNuGet_isCmp.refl v
   swap := fun v w _ _ => cmpNuGet_isCmp.swap v w
 
@@ -98,14 +98,14 @@ theorem cran_laws : FamLaws cranFam (fun _ => True) cmpCran where
     simp only [cranFam, parseCran]
     split <;> simp
   parse_wf := fun _ _ _ => trivial
-  cmp_eq := fun _ _ _ _ => rfl
+  cmp_eq := fun v w _ _ => cranFam_cmp v w
   refl := fun v _ => cmpCran_isCmp.refl v
   swap := fun v w _ _ => cmpCran_isCmp.swap v w
 
 theorem rubygems_laws : FamLaws rubygemsFam (fun _ => True) cmpRuby where
-  parse_nopanic := fun s => by simp [rubygemsFam]
+  parse_nopanic := fun s => by simp
   parse_wf := fun _ _ _ => trivial
-  cmp_eq := fun _ _ _ _ => rfl
+  cmp_eq := fun v w _ _ => rubygemsFam_cmp v w
   refl := fun v _ => cmpRuby_isCmp.refl v
   swap := fun v w _ _ => cmpRuby_isCmp.swap v w
 
